@@ -276,5 +276,26 @@ PROPS["C02"]["obligations"].append(
              desc="fastcgi::parse_pairs on an arbitrary params body never reads outside body_ (length fields up to 2^31 included)",
              tiers=T(quick=dict(split=[[0, 1, 2, 4, 6]], unwind=12, unwindset={"F__ZN6cppcms4impl3cgi7fastcgi11parse_pairsEv.0": "p0+2"}, timeout=900, bounds="every body of length 0,1,2,4,6 (exact-size heap block)"))))
 
+PROPS["C05"] = dict(
+    title="Client-side sessions are accepted only if issued by this server and unexpired",
+    level="model_checking",
+    trusted_base=COMMON_TB + ["crypto::hmac and crypto::key are an opaque MAC model defined in the harness (append records, readout returns an arbitrary digest of D bytes); MAC unforgeability is an assumption",
+                              "native replay of these obligations runs the gcc build of the translated real code plus the MAC model (the native library build has the real HMAC)"],
+    assumptions=["digest size D = 4 (quick) / 16 (thorough): hmac_cipher is generic in it"],
+    outside="AES+HMAC cipher, session_cookies::load/save (base64, expiry), the digests themselves (C16), confidentiality properties, cross-key transplant",
+    obligations=[
+        dict(id="C05.a", harness="C05_hmac_cipher.cpp", entry="h_c05a_decrypt", ctors=False, cut=[STRING_REALLOC], nvec=0, replay="generated",
+             desc="hmac_cipher::decrypt: true <=> length >= D and ALL D tag bytes equal the MAC computed over exactly the preceding bytes; plain == those bytes; rejected input leaves the output untouched",
+             tiers=T(quick=dict(defs=dict(VERIF_D=4), split=[[0, 3, 4, 5, 7]], unwind=12, timeout=600, bounds="D=4; every cipher text of length 0,3,4,5,7; arbitrary digest"),
+                     thorough=dict(defs=dict(VERIF_D=16), split=[[0, 15, 16, 17, 20]], unwind=26, timeout=1800, bounds="D=16; cipher text lengths 0,15,16,17,20"))),
+        dict(id="C05.a2", harness="C05_hmac_cipher.cpp", entry="h_c05a_roundtrip", ctors=False, cut=[STRING_REALLOC], nvec=0, replay="generated",
+             desc="hmac_cipher: encrypt emits message || MAC(message); decrypt(encrypt(p)) == p for a functional MAC",
+             tiers=T(quick=dict(defs=dict(VERIF_D=4), split=[[0, 1, 3]], unwind=12, timeout=600, bounds="D=4; every payload of length 0,1,3"))),
+        dict(id="C05.d", harness="C05_hmac_cipher.cpp", entry="h_c05d_key_guard", ctors=False, nvec=0, replay="generated",
+             desc="hmac_cipher constructor refuses exactly the keys shorter than 16 bytes",
+             tiers=T(quick=dict(unwind=90, timeout=600, bounds="every 64-bit key size"))),
+    ],
+)
+
 # properties for which no obligation can be built with this technique (reason required)
 NOT_APPLICABLE = {}
